@@ -143,4 +143,30 @@ def newStream (src : Bytes) (k : Nat) (code : Int) (secret : Bytes) : Res Packet
   | .err => .err
   | .fault => .fault
 
+/-! ### The entropy source as an `io.Reader`: short reads
+
+  `crypto/rand.Read(b)` on a replaced `Reader` is `io.ReadFull(Reader, b)`: `Read` is called again and again
+  for what is still missing.  One `Read(p)` may deliver FEWER octets than `len p` without an error
+  (`io.Reader`'s contract); it delivers at least one, or fails.  `lims` is the source's behaviour: call
+  number `k` delivers at most `lims[k]` octets (a limit of 0 counts as 1). -/
+
+/-- `io.ReadFull` for `need` octets from a source that still holds `src` and answers its successive `Read`
+    calls with at most `lims[0]`, `lims[1]`, … octets: what was read and what the source still holds;
+    `none`: the source ran dry (an error: `New` panics) or `lims` has no entry left for a call. -/
+def readFull : List Nat → Nat → Bytes → Option (Bytes × Bytes)
+  | _, 0, src => some ([], src)
+  | [], _ + 1, _ => none
+  | l :: ls, need + 1, src =>
+    let n := min (max l 1) (need + 1)
+    if src.length < n then none
+    else match readFull ls (need + 1 - n) (src.drop n) with
+      | some (got, rest) => some (src.take n ++ got, rest)
+      | none => none
+
+/-- `New` on an entropy source that answers its `Read` calls as `lims` says -/
+def newFromReader (lims : List Nat) (src : Bytes) (code : Int) (secret : Bytes) : Res (Packet × Bytes) :=
+  match readFull lims 17 src with
+  | some (got, rest) => .ok (newPacket got code secret, rest)
+  | none => .fault
+
 end RV
